@@ -8,6 +8,7 @@ import (
 	"time"
 
 	corev1 "k8s.io/api/core/v1"
+	"k8s.io/apimachinery/pkg/api/resource"
 	metav1 "k8s.io/apimachinery/pkg/apis/meta/v1"
 	"k8s.io/apimachinery/pkg/types"
 	"sigs.k8s.io/controller-runtime/pkg/client"
@@ -127,10 +128,16 @@ func (k *Kubelet) register(kn *KNode) {
 	node.Status.Capacity = inst.Capacity.DeepCopy()
 	node.Status.Allocatable = inst.Allocatable.DeepCopy()
 	if kn.LateDevices {
+		// until the device plugin registers the resource is either absent or reported with zero allocatable
+		zero := k.s.Ch.Pick("kubelet.latezero", 2) == 1
 		for r := range node.Status.Allocatable {
 			if isExtended(r) {
-				delete(node.Status.Allocatable, r)
-				delete(node.Status.Capacity, r)
+				if zero {
+					node.Status.Allocatable[r] = resource.MustParse("0")
+				} else {
+					delete(node.Status.Allocatable, r)
+					delete(node.Status.Capacity, r)
+				}
 			}
 		}
 	}
